@@ -147,6 +147,9 @@ def run(rep):
                             cap_ok = any(r[1].endswith('.binding') for r in cap) or (bool(cap) and any(u[1].replace('&', '').replace('*', '').endswith('.binding') for u in up_roots))
                             if len(rs) == 2 and elem_side and cap_ok:
                                 cmp_ok = True
+                # the comparison is the whole predicate: a further conjunct (`&& g.name == ..`) narrows the scan, a disjunct or a call changes it
+                if any(blk_['term']['k'] in ('switch', 'call') for blk_ in CB.blocks):
+                    cmp_ok = False
             rep.check(cmp_ok, 'C11.R1.scan-compares-index', key, B.where(bb),
                       'the scan closure is not `element.binding_index == <captured binding>.binding`', ok_detail='element.binding_index == binding.binding')
             # true edge returns DuplicateBinding{binding}
